@@ -1040,11 +1040,43 @@ def run(tier, seed_):
         if r is None or r.status != 200:
             raise Inconclusive("fresh token not accepted by the target: %s" % (r and r.status))
         seed(target, target.api_login())
+        # a token that stays in continuous use across its expiry (one request every 0.7 s): being used must not keep it alive
+        cont = {"log": []}
+
+        def continuous_user():
+            t0 = time.time()
+            tok = target.api_login()
+            if not tok or tok == "AUTH_DISABLED":
+                cont["error"] = "login failed"
+                return
+            cont["t_login"] = t0
+            while time.time() - t0 < LOGIN_TTL + 6.0:
+                tc = time.time()
+                rr = send(target.http_port, "GET", "/nacos/v1/console/namespaces", query="", headers={"accessToken": tok})
+                cont["log"].append((round(tc - t0, 2), rr.status if rr is not None else None))
+                time.sleep(0.7)
+        cth = threading.Thread(target=continuous_user, daemon=True)
+        cth.start()
         fper = Fingerprinter(target)
         protected, exempt, outside, kept = discover_phase(out, tier, rnd, disc, tok_d)
         wait = t_login + LOGIN_TTL + 2.5 - time.time()
         if wait > 0:
             time.sleep(wait)
+        cth.join(LOGIN_TTL + 12)
+        if cont.get("log") and not cont.get("error"):
+            okb = [x for x in cont["log"] if x[0] < LOGIN_TTL - 0.5]
+            late = [x for x in cont["log"] if x[0] > LOGIN_TTL + 2.0]
+            out.evaluations += len(cont["log"])
+            if okb and all(st == 200 for _, st in okb) and late:
+                served = [x for x in late if x[1] == 200]
+                if served:
+                    out.violation("http-invalid-token-accepted/expired-token-in-continuous-use/GET /nacos/v1/console/namespaces",
+                                  {"login_ttl_s": LOGIN_TTL, "request_period_s": 0.7, "answers_(age_s,status)": cont["log"], "served_after_expiry": len(served)})
+                else:
+                    out.shape("continuous-use/expired-token-refused")
+                out.extra["token_in_continuous_use"] = {"requests": len(cont["log"]), "last_200_at_s": max([x[0] for x in cont["log"] if x[1] == 200] or [None]), "first_403_at_s": min([x[0] for x in cont["log"] if x[1] == 403] or [None])}
+            else:
+                out.extra["token_in_continuous_use"] = "inconclusive: %s" % cont["log"][:6]
         fp0 = fper.take()
         if not any(k.startswith("config ") for k in fp0) or not any(" instance " in k for k in fp0) or len(fp0["namespaces"]) < 2:
             raise Inconclusive("seeded data not visible in the fingerprint: %s" % sorted(fp0))
